@@ -156,7 +156,7 @@ func TestC13(t *testing.T) {
 
 	chk := c13Hyphens.On(col, "rapid: programs over objects, assign, if/elsif/else, unless, case/when, for/tablerow with else, break/continue, cycle, capture, comment and raw blocks whose text tokens are every mix of spaces, tabs, newlines and non-whitespace (incl. whitespace-only), and whose values may start or end with whitespace; each of the 2k delimiter sides is a hyphen slot: all 2^(2k) subsets when 2k <= 10, sampled subsets otherwise. All renders by the implementation: (A) outputs with and without hyphens are equal after deleting all whitespace, both fail or both succeed; (B) the hyphenated output is obtainable from the plain one by deleting whitespace only; (C) when every hyphen faces a literal text token or the template boundary (inner sides of raw/comment excluded) the output equals that of the template with hyphens dropped and exactly that adjacent whitespace deleted. Non-trivial: a hyphen faces text that has whitespace on that side (C), or the outputs differ; distinct by (template, subset, bindings)", false)
 	prof := hx.FullProfile()
-	prof.Tablerow, prof.WSText, prof.MaxNodes, prof.CapturePrintOnly = true, true, 8, true
+	prof.Tablerow, prof.WSText, prof.MaxNodes, prof.CapturePrintOnly, prof.LongText = true, true, 8, true, true
 	col.Rapid(chk.Sub, env.PerShard(env.Pick(10000, 150000)), func(t *rapid.T) {
 		p := hx.GenProgram(t, prof)
 		// values with white space at their edges, next to hyphenated tags
